@@ -41,6 +41,33 @@ var c14replies = map[string]string{
 	"closed":      "",
 }
 
+// every stream error condition of RFC 6120 4.9.3, as the answer to <auth/>
+var c14streamConditions = []string{"bad-format", "bad-namespace-prefix", "conflict", "connection-timeout", "host-gone", "host-unknown",
+	"improper-addressing", "internal-server-error", "invalid-from", "invalid-namespace", "invalid-xml", "not-authorized",
+	"not-well-formed", "policy-violation", "remote-connection-failed", "reset", "resource-constraint", "restricted-xml",
+	"see-other-host", "system-shutdown", "undefined-condition", "unsupported-encoding", "unsupported-feature",
+	"unsupported-stanza-type", "unsupported-version"}
+
+var c14otherReplies = []string{"success", "failure", "failure-txt", "other", "challenge", "features", "malformed", "truncated", "closed",
+	"stream-error-empty", "stream-close", "iq-result", "presence", "sm-enabled", "sm-answer", "sm-request", "handshake", "success-other-ns", "proceed"}
+
+func init() {
+	for _, cnd := range c14streamConditions {
+		c14replies["stream-error/"+cnd] = "<stream:error xmlns:stream='http://etherx.jabber.org/streams'><" + cnd + " xmlns='urn:ietf:params:xml:ns:xmpp-streams'/></stream:error>"
+		c14otherReplies = append(c14otherReplies, "stream-error/"+cnd)
+	}
+	c14replies["stream-error-empty"] = "<stream:error xmlns:stream='http://etherx.jabber.org/streams'/>"
+	c14replies["stream-close"] = "</stream:stream>"
+	c14replies["iq-result"] = "<iq xmlns='jabber:client' type='result' id='x'/>"
+	c14replies["presence"] = "<presence xmlns='jabber:client'/>"
+	c14replies["sm-enabled"] = "<enabled xmlns='urn:xmpp:sm:3' id='x'/>"
+	c14replies["sm-answer"] = "<a xmlns='urn:xmpp:sm:3' h='0'/>"
+	c14replies["sm-request"] = "<r xmlns='urn:xmpp:sm:3'/>"
+	c14replies["handshake"] = "<handshake xmlns='jabber:component:accept'/>"
+	c14replies["success-other-ns"] = "<success xmlns='urn:other'/>"
+	c14replies["proceed"] = "<proceed xmlns='urn:ietf:params:xml:ns:xmpp-tls'/>"
+}
+
 func c14strClass(s string) string {
 	switch {
 	case s == "":
@@ -193,7 +220,11 @@ func c14direct(c *hx.Ctx, user, secret string, cred Credential, offered []string
 		}
 	default:
 		if err == nil {
-			c.Fail("C14|authenticated-without-success|reply="+reply, in, "%s: authSASL returned nil", in)
+			rc := reply
+			if i := strings.Index(rc, "/"); i > 0 {
+				rc = rc[:i]
+			}
+			c.Fail("C14|authenticated-without-success|reply="+rc, in, "%s: authSASL returned nil", in)
 		}
 	}
 }
@@ -244,7 +275,7 @@ func TestVerifC14(t *testing.T) {
 				for rp := range c14replies {
 					_ = rp
 				}
-				for _, rp := range []string{"success", "failure", "failure-txt", "other", "challenge", "features", "malformed", "truncated", "closed"} {
+				for _, rp := range c14otherReplies {
 					c14direct(c, "user", "sec", cr.mk("sec"), l, rp)
 				}
 			}
@@ -264,6 +295,9 @@ func TestVerifC14(t *testing.T) {
 				ui := vrt.ChooseFree("user", len(users))
 				si := vrt.ChooseFree("secret", len(secrets))
 				user, secret := users[ui], secrets[si]
+				// the stream's domain: left to default to the JID's, given and equal, given and different
+				// (a virtual host): the authentication identity stays the local part of the JID
+				domain := []string{"example.org", "", "xmpp.hosting.example"}[vrt.ChooseFree("domain", 3)]
 				w := vnet.NewWorld()
 				var recs []*negRec
 				listen(w, "example.org:5222", func(k int) *negCfg {
@@ -274,7 +308,7 @@ func TestVerifC14(t *testing.T) {
 						return alts[0]
 					}}
 				}, &recs, nil)
-				cfg := &Config{TransportConfiguration: TransportConfiguration{Address: "example.org:5222", Domain: "example.org"},
+				cfg := &Config{TransportConfiguration: TransportConfiguration{Address: "example.org:5222", Domain: domain},
 					Jid: user + "@example.org/r", Credential: cr.mk(secret), Insecure: true}
 				cl, err := NewClient(cfg, NewRouter(), func(error) {})
 				if err != nil {
@@ -282,14 +316,14 @@ func TestVerifC14(t *testing.T) {
 					return
 				}
 				err = cl.Connect()
-				vrt.Log("user=%q secret=%q err=%v", user, secret, err != nil)
+				vrt.Log("user=%q secret=%q domain=%q err=%v", user, secret, domain, err != nil)
 				if len(recs) == 0 {
 					vrt.Fail("C14|harness|no-conn", "no connection")
 					return
 				}
 				r := recs[0]
 				vrt.Log("auth=%s", r.AuthRaw)
-				in := fmt.Sprintf("user=%q secret=%q cred=%s offered=%v", user, secret, cr.name, ml)
+				in := fmt.Sprintf("user=%q secret=%q domain=%q cred=%s offered=%v", user, secret, domain, cr.name, ml)
 				cred := cr.mk(secret)
 				if k, d := c14checkAuth(r.AuthRaw, ml, cred, user, secret); k != "" {
 					vrt.Fail("C14|connect|"+k, "%s: %s", in, d)
